@@ -298,3 +298,22 @@ def sort_commutative(t: Any) -> Any:
     if isinstance(t, frozenset):
         return frozenset(sort_commutative(x) for x in t)
     return t
+
+
+def desugar(t: Any) -> Any:
+    """The function spellings of numpy operators rewritten as the operators (np.less_equal(a, b) -> a <= b, np.logical_and -> &, np.multiply -> *,
+    np.negative -> unary minus, np.square(a) -> a ** 2), in the term language of sa.sym: for consumers that interpret operators."""
+    if isinstance(t, frozenset):
+        return frozenset(desugar(x) for x in t)
+    if not isinstance(t, tuple):
+        return t
+    t = tuple(desugar(x) for x in t)
+    if t and t[0] == "call" and len(t) == 4 and isinstance(t[1], tuple) and t[1] and t[1][0] == "global" and not t[3]:
+        name, args = ALIASES.get(t[1][1], t[1][1]), t[2]
+        if name in COMPARE_FUNCS and len(args) == 2:
+            return ("cmp", (COMPARE_FUNCS[name],), (args[0], args[1]))
+        if name in BINARY_FUNCS and len(args) == 2 and BINARY_FUNCS[name] != "**":
+            return ("binop", BINARY_FUNCS[name], args[0], args[1])
+        if name in UNARY_FUNCS and len(args) == 1:
+            return args[0] if UNARY_FUNCS[name] == "+" else ("unop", UNARY_FUNCS[name], args[0])
+    return t
